@@ -432,6 +432,18 @@ def main():
                 tree = ast.parse(q, mode="eval").body
                 items.append((b, "wire", "metadata-lists-as-tuples", q, lists_to_tuples(tree)))
                 items.append((b, "qastle", "round-trip", q, None))
+        # wire format of negative constants: a captured python value -1 reaches the executor as ONE Constant(-1) node in the
+        # python AST, and as "-1" = USub(Constant(1)) after the trip through qastle text
+        from ..tv.translate import _FoldNegative
+        for body in (f"lambda e: e.{v['prim']}('A').Select(lambda j: j.pt() - -5)",
+                     f"lambda e: e.{v['prim']}('A').Select(lambda j: j.vals()[-1])",
+                     f"lambda e: e.{v['prim']}('A')[-1].pt()",
+                     f"lambda e: e.{v['prim']}('A').Where(lambda j: j.eta() > -1.5).Select(lambda j: j.vals()[-2] * -2)",
+                     f"lambda e: e.{v['prim']}('A').Select(lambda j: j.vals().Count() > 1 and j.vals()[-1] > -0.5)"):
+            q = f"Select(EventDataset('ds'), {body})"
+            tree = ast.parse(q, mode="eval").body
+            folded = ast.fix_missing_locations(_FoldNegative().visit(copy.deepcopy(tree)))
+            items.append((b, "wire", "negative-constant-as-one-node", q, folded))
         for sep, fused in FUSION_PAIRS:
             sep, fused = [x.replace("PRIM", v["prim"]).replace("SEC", v["sec"]) for x in (sep, fused)]
             items.append((b, "fusion", "separate-vs-fused", fused, sep))
